@@ -832,6 +832,10 @@ class Evaluator(object):
             if isinstance(base, L):
                 base.elts.append(args[0])
                 return K(None)
+        if isinstance(f, ast.Attribute) and f.attr == "isEnabledFor" and ("logger" in dump(f.value).lower() or dump(f.value).lower().startswith("logging")):
+            # trace-only branches are not part of the shapes computed here: what they may raise is E4's business, what they do
+            # with user objects is examined by the use-classification rules (an undecided level would only fork every table)
+            return K(False)
         if isinstance(f, ast.Attribute) and f.attr in ("startswith", "endswith", "lstrip", "rstrip", "strip", "lower", "upper",
                                                        "format", "split", "rpartition", "replace"):
             try:
